@@ -168,8 +168,8 @@ pub fn run(cfg: &RunCfg) -> Report {
         let setting = r.get("case").unwrap_or(r).get("setting").and_then(|x| x.as_str()).unwrap_or("").to_string();
         if setting.starts_with("written as the body of a parameterized type") {
             judge_templates("c03", &[c], &mut rep, &describe);
-        } else if setting.starts_with("one INTEGER component written as a fixed-type class field") {
-            judge_class_field("c03", &[c], &mut rep, &describe);
+        } else if setting == CLASS_FIELD_SETTING || setting == CLASS_FIELD_SETTING_LAST {
+            judge_class_field_at("c03", &[c], &mut rep, &describe, setting == CLASS_FIELD_SETTING_LAST);
         } else if !setting.is_empty() {
             // the same type under every module default, in one compilation
             let all: Vec<Case> = ENVS.iter().map(|e| Case { env: e, ..c.clone() }).collect();
